@@ -596,7 +596,113 @@ def run_one(label, fn, args, kwargs, opts, args2):
     rec['repeat_equal'] = (st2 == status and rs2 == rs)
     if not rec['repeat_equal']:
         rec['repeat_diff'] = first_diff(rs, rs2) if (rs is not None and rs2 is not None) else f'{status} vs {st2}'
+        if isinstance(rs, str) and isinstance(rs2, str):
+            la, lb = rs.split('\\n'), rs2.split('\\n')
+            d = [(x, y) for x, y in zip(la, lb) if x != y]
+            rec['repeat_diff'] = f'first differing line: {d[0][0]!r} vs {d[0][1]!r}' if d else 'length differs'
     return rec
+
+
+class Tracer:
+    """records every unit/dtype conversion requested with copy=False (x.to, x.astype, sc.to_unit): which object,
+    which unit, which dtype.  Used to derive the argument units/dtypes that make those conversions no-ops."""
+
+    def __init__(self):
+        self.seen = []
+
+    def __enter__(self):
+        self.saved = [(sc.Variable, 'to', sc.Variable.to), (sc.Variable, 'astype', sc.Variable.astype),
+                      (sc.DataArray, 'to', sc.DataArray.to), (sc.DataArray, 'astype', sc.DataArray.astype),
+                      (sc, 'to_unit', sc.to_unit)]
+        seen = self.seen
+
+        def mk_to(orig):
+            def to(self_, *a, unit=None, dtype=None, copy=True):
+                if copy is False:
+                    seen.append((self_, unit, dtype))
+                return orig(self_, *a, unit=unit, dtype=dtype, copy=copy)
+            return to
+
+        def mk_astype(orig):
+            def astype(self_, type, *a, copy=True):
+                if copy is False:
+                    seen.append((self_, None, type))
+                return orig(self_, type, *a, copy=copy)
+            return astype
+        o_to_unit = sc.to_unit
+
+        def to_unit(x, unit, *a, copy=True):
+            if copy is False:
+                seen.append((x, unit, None))
+            return o_to_unit(x, unit, *a, copy=copy)
+        sc.Variable.to, sc.Variable.astype = mk_to(sc.Variable.to), mk_astype(sc.Variable.astype)
+        sc.DataArray.to, sc.DataArray.astype = mk_to(sc.DataArray.to), mk_astype(sc.DataArray.astype)
+        sc.to_unit = to_unit
+        import scippneutron.conversion.tof as T
+        return self
+
+    def __exit__(self, *exc):
+        for obj, name, val in self.saved:
+            setattr(obj, name, val)
+        return False
+
+
+def slots_of(args, kwargs):
+    """the places an argument variable can sit: top-level positions and attributes of argument objects"""
+    out = []
+    for i, a in enumerate(args):
+        out.append((a, ('pos', i)))
+    for k, v in kwargs.items():
+        out.append((v, ('kw', k)))
+    for holder, _ in list(out):
+        d = None
+        if dataclasses.is_dataclass(holder) and not isinstance(holder, type):
+            d = {f.name: getattr(holder, f.name) for f in dataclasses.fields(holder)}
+        elif hasattr(holder, '__dict__') and not isinstance(holder, (sc.Variable, sc.DataArray)):
+            d = dict(vars(holder))
+        for k, v in (d or {}).items():
+            if isinstance(v, (sc.Variable, sc.DataArray)):
+                out.append((v, ('attr', holder, k)))
+    return out
+
+
+def align(fn, args, kwargs):
+    """run once under the tracer; convert (copies of) the arguments to the units/dtypes the function asked for with
+    copy=False, in place in the args list / kwargs dict / holder objects.  Returns a description of what was aligned."""
+    done = []
+    for _ in range(2):
+        with Tracer() as t:
+            try:
+                fn(*args, **kwargs)
+            except Exception:      # noqa: BLE001
+                pass
+        slots = slots_of(args, kwargs)
+        changed = False
+        for obj, unit, dtype in t.seen:
+            for v, where in slots:
+                if v is obj:
+                    try:
+                        kw = {}
+                        if unit is not None and sc.Unit(str(unit)) != v.unit:
+                            kw['unit'] = unit
+                        if dtype is not None and v.dtype != dtype:
+                            kw['dtype'] = dtype
+                        if not kw:
+                            continue
+                        new = v.to(**kw)
+                    except Exception:      # noqa: BLE001
+                        continue
+                    if where[0] == 'pos':
+                        args[where[1]] = new
+                    elif where[0] == 'kw':
+                        kwargs[where[1]] = new
+                    else:
+                        object.__setattr__(where[1], where[2], new)
+                    done.append(f'{where[0]}:{where[-1]} -> {kw}')
+                    changed = True
+        if not changed:
+            break
+    return done
 
 
 def run_calls(payload):
@@ -610,12 +716,28 @@ def run_calls(payload):
         except Exception as ex:      # noqa: BLE001
             out.append({'label': '<builders>', 'status': 'harness-error', 'error': traceback.format_exc()[-800:], 'combo': combo})
             continue
-        for (label, fn, args, kwargs, opts), (_, _, args2, _, _) in zip(b1, b2):
-            if only and label not in only:
+        b3 = builders(variant, layout, seed) if payload.get('aligned', True) else None
+        b4 = builders(variant, layout, seed) if b3 is not None else None
+        for j, ((label, fn, args, kwargs, opts), (_, _, args2, _, _)) in enumerate(zip(b1, b2)):
+            if only and label not in only and label + '[aligned]' not in only:
                 continue
             rec = run_one(label, fn, args, kwargs, opts, args2)
             rec['combo'] = combo
             out.append(rec)
+            if b3 is None or fn is None or opts.get('norepeat') or j >= len(b3):
+                continue
+            # the same entry point with the arguments converted to the units / dtypes that make its internal
+            # copy=False conversions no-ops (derived by tracing those conversions)
+            _, fn3, args3, kwargs3, opts3 = b3[j]
+            try:
+                how = align(fn3, args3, kwargs3)
+            except Exception as ex:      # noqa: BLE001
+                how = []
+            if how:
+                rec2 = run_one(label + '[aligned]', fn3, args3, kwargs3, opts3, b4[j][2])
+                rec2['combo'] = combo
+                rec2['aligned'] = how
+                out.append(rec2)
     return out
 
 
@@ -787,7 +909,7 @@ def run_histories(payload):
                 w.reset()
                 pristine[(act[1], act[2])] = w.observe(act[1], w.call(act[1], act[2]))
         w.reset()
-        handles, flags, err = [], [], None
+        handles, flags, err, applied = [], [], None, []
         try:
             for act in h:
                 if act[0] == 'call':
@@ -796,10 +918,10 @@ def run_histories(payload):
                     flags.append(w.observe(act[1], r) == pristine[(act[1], act[2])])
                 else:
                     op, r = handles[act[1]]
-                    w.mutate(op, r, act[2])
+                    applied.append(bool(w.mutate(op, r, act[2])))
         except Exception:       # noqa: BLE001
             err = traceback.format_exc()[-600:]
-        out.append({'flags': flags, 'error': err})
+        out.append({'flags': flags, 'error': err, 'applied': applied})
     w.reset()
     return out
 
